@@ -337,7 +337,24 @@ func (g *G) Stmt(depth int, ind string) string {
 		name := g.fresh("rec")
 		g.declare(name, TFn1, true)
 		g.f("recursion")
-		switch g.r.Intn(3) {
+		switch g.r.Intn(5) {
+		case 3:
+			// self tail recursion whose parameters are captured by closures that survive the call:
+			// every closure keeps the arguments of its own iteration
+			g.f("recursion:tail-captured-params")
+			fs, t, w := g.fresh("fs"), g.fresh("tl"), g.fresh("w")
+			g.declare(w, TArrI, false)
+			return fs + " := []; " + t + " := func(m, acc) { " + fs + " = append(" + fs + ", func() { return m * 100 + acc }); if m <= 0 || m > 20 { return acc }; return " + t + "(m-1, acc+m) }; " +
+				name + " := func(n) { return " + t + "(n % 5, 0) }; " + t + "(" + strconv.Itoa(g.r.Intn(6)) + ", 1); " +
+				w + " := [" + fs + "[0](), " + fs + "[len(" + fs + ")-1](), len(" + fs + ")]"
+		case 4:
+			// one function calling itself both as a discarded last statement and as a returned tail
+			// call: the value of the base case reaches the caller only along an all-return path
+			g.f("recursion:mixed-discard-and-return")
+			mx, v := g.fresh("mx"), g.fresh("v")
+			g.declare(v, TAny, false)
+			return mx + " := func(n) { if n <= 0 || n > 40 { return 5 }; if n % 3 == 1 { return " + mx + "(n-1) }; " + mx + "(n-1) }; " +
+				name + " := func(n) { r := " + mx + "(n % 7); return is_undefined(r) ? -1 : r }; " + v + " := " + mx + "(" + strconv.Itoa(g.r.Intn(9)) + ")"
 		case 0:
 			return name + " := func(n) { if n <= 0 || n > 25 { return 1 }; return n * " + name + "(n-1) }; " + g.fresh("v") + "_ := " + name + "(" + strconv.Itoa(g.r.Intn(12)) + ")"
 		case 1:
